@@ -204,6 +204,10 @@ def small_specs(draw, shapes=("matmul", "chain2", "matvec", "elementwise2"), bou
     """1-2 Einsum specs that the mapper finishes in about a second: two memory levels, or three
     for a single Einsum."""
     wl = draw(G.workloads(shapes=shapes, bound_pool=bound_pool or G.SMALL_BOUND_POOL, max_ops=max_ops))
+    if list(wl["bits"].values())[0] == 1:
+        # G's finite sizes are 'n values + half a value' to stay clear of the known exact-fit float32
+        # finding (known_findings.json, C08); with 1-bit values the half value is a whole one
+        wl["bits"] = {"All": 4}
     single = len(wl["einsums"]) == 1
     levels = (2, 2, 3) if (single and three_level_single) else (2,)
     nodes = draw(tradeoff_nodes(wl, levels=levels, allow_leak=allow_leak, finite_tp=finite_tp, cap_bind=cap_bind))
@@ -211,6 +215,23 @@ def small_specs(draw, shapes=("matmul", "chain2", "matvec", "elementwise2"), bou
     d["nodes"] = nodes
     d["mapper"] = {}
     return d
+
+
+def drive_unbiased(strategy, check, *, n, seed, col):
+    """drive() without shrinking (a shrink step costs several mapper runs) and without Hypothesis'
+    all-minimal first example, which with 2-3 examples per shard would be a large share of all cases."""
+    from vf.core import drive
+
+    state = {"skip": True}
+
+    def chk(desc, c):
+        if state.pop("skip", False):
+            return
+        check(desc, c)
+
+    # max_failures=1: a failing shard stops at its first failure instead of re-running all its (expensive)
+    # cases to look for further keys; the other shards keep searching independently
+    drive(strategy, chk, n=n + 1, seed=seed, col=col, shrink=False, max_failures=1)
 
 
 def shape_labels(desc):
